@@ -3,7 +3,7 @@
    points (the byte->text layer is checked separately by C10/C08).
    decoder ids: 0 General 1 Editor 2 Metadata 3 Difficulty 4 Events 5 Colors
                 6 TimingPoints 7 HitObjects 8 Beatmap *)
-From RM Require Import Model.Decoders Model.CurveDist.
+From RM Require Import Model.Decoders Model.CurveDist Model.Reader.
 From RM Require Model.Curve.
 
 Definition dump_oc {A} (d : A -> list Z) (x : outcome A) : list Z :=
@@ -54,5 +54,30 @@ Definition run_dec (lm : Curve.Libm) (inp : list Z) : list Z :=
       if id =? 7 then dump_oc (dump_hov_v lm) (decode_hit_objects (dist_of_curve lm) lines)
       else if id =? 8 then dump_oc (dump_bmv_v lm) (decode_beatmap (dist_of_curve lm) lines)
       else run_dec_simple inp
+  | [] => [99]
+  end.
+
+(* decb: decoder id, then the RAW BYTES of the file: the reader model (BOM,
+   encodings, line splitting; one-chunk schedule = from_bytes) composed with
+   the decoder models.  io prefix: 0 ok / 1 kind / 2 panic / 3 fuel. *)
+Definition run_decb (lm : Curve.Libm) (inp : list Z) : list Z :=
+  match inp with
+  | id :: bytes =>
+      match read_all_lines (mk_reader bytes []) with
+      | IoDone lines =>
+          0 :: (if id =? 7 then dump_oc (dump_hov_v lm) (decode_hit_objects (dist_of_curve lm) lines)
+                else if id =? 8 then dump_oc (dump_bmv_v lm) (decode_beatmap (dist_of_curve lm) lines)
+                else if id =? 0 then dump_general (decode_general lines)
+                else if id =? 1 then dump_editor (decode_editor lines)
+                else if id =? 2 then dump_metadata (decode_metadata lines)
+                else if id =? 3 then dump_difficulty_v (decode_difficulty lines)
+                else if id =? 4 then dump_events (decode_events lines)
+                else if id =? 5 then dump_colors (decode_colors lines)
+                else if id =? 6 then dump_oc dump_tpv (decode_timing_points lines)
+                else [98])
+      | IoErr k => [1; kind_code k]
+      | IoPanic w => [2; w]
+      | IoFuel => [3]
+      end
   | [] => [99]
   end.
